@@ -158,7 +158,13 @@ Check_C26(s, e, o, routedOnly, prop) ==
         LET r == SelectSeq(o.rets, LAMBDA x : x.call = e.call) IN
         (IF Len(r) # 1 THEN {Tag(prop, "api-did-not-return", "Sleep")}
          ELSE TagsIf(~r[1].ok, Tag(prop, "api-failed", "Sleep-" \o r[1].err)))
-        \cup DeliveryTags(prop, s, s.queued, o.cbs, TRUE)
+        \* a message on a topic the client has no ID for needs a REGISTER/REGACK round trip first: the
+        \* gateway can deliver it only in a later awake window, so it is not demanded in this one
+        \cup (LET must == SelectSeq(s.queued, LAMBDA p : p.short \/ p.topic \in s.regs
+                                                          \/ \E e2 \in Range(s.cfg.predef) : e2.n = p.topic /\ e2.c \in {s.cfg.cid, "*"})
+              IN DeliveryTags(prop, s, must, SelectSeq(o.cbs, LAMBDA c : \E i \in DOMAIN must : must[i].topic = c.topic /\ must[i].pl = c.pl), TRUE))
+        \cup TagsIf(\E j \in DOMAIN o.cbs : ~\E i \in DOMAIN s.queued : o.cbs[j].topic = s.queued[i].topic /\ o.cbs[j].pl = s.queued[i].pl,
+                    Tag(prop, "unexpected-callback", "wake"))
     ELSE {}
 
 (* C16: QoS 1/2 delivery to clients survives datagram loss within the retry budget *)
